@@ -4,9 +4,12 @@ Generated worlds (harness/pddlgen) x one action x one mapping passed to Action.c
 of states and calls.  Observables from the real code: the renamed signature, the action's text before and after
 (the library's printing methods), applicability and successor of the original and of the renamed action.
 Judged inside Coq by Corr.C18 (model agreement; property oracle without the model)."""
+import glob
 import itertools
 import json
+import os
 import random
+import time
 
 from ..common import (Report, case_hash, cbool, chex, clist, cstr, decide, load_findings, run_case_shards, run_impl,
                       standard_proof_part)
@@ -188,6 +191,23 @@ def shadow_quantifiers(rng, a):
     return done
 
 
+def enrich_pairs(rng, a):
+    """several (in)equality pairs at one level (the generator rarely produces more than one)"""
+    ps = [p for p, _ in a["params"]]
+    pre = a["pre"]
+    if len(ps) < 2 or not (isinstance(pre, list) and pre and pre[0] == "and"):
+        return False
+    extra = []
+    for _ in range(rng.randint(2, 3)):
+        x, y = rng.sample(ps, 2)
+        extra.append(["=", x, y] if rng.random() < 0.5 else ["not", ["=", x, y]])
+    if rng.random() < 0.5:
+        a["pre"] = pre + extra
+    else:
+        a["pre"] = pre + [[rng.choice(["or", "and"])] + extra]
+    return True
+
+
 def action_features(a):
     txt = json.dumps([a["pre"], a["eff"]])
     fs = []
@@ -212,6 +232,7 @@ def generate(rng, tier):
         if rng.random() < 0.6:
             for a in w.actions:
                 shadowed[a["name"]] = shadow_quantifiers(rng, a)
+        enriched = {a["name"]: rng.random() < 0.3 and enrich_pairs(rng, a) for a in w.actions}
         objs = G.gen_objects(rng, w)
         text = G.render(w.domain_tree("dom"), rng, noise=rng.random() < 0.3)
         states = [G.gen_state(rng, w, objs) for _ in range(2)]
@@ -224,7 +245,8 @@ def generate(rng, tier):
                 # the hidden parameter must move while its namesake below the quantifier stays
                 kinds = ["fresh", "library-style"] + kinds[1:]
             feats = action_features(a) + (["constant"] if uses_constant(w, a) else []) + \
-                (["shadowing-quantifier"] if shadowed.get(a["name"]) else [])
+                (["shadowing-quantifier"] if shadowed.get(a["name"]) else []) + \
+                (["several-pairs"] if enriched.get(a["name"]) else [])
             for kind in kinds:
                 m = make_mapping(rng, w, a, kind)
                 if m is None:
@@ -234,6 +256,93 @@ def generate(rng, tier):
                               "probes": [] if kind in ("collapse", "onto-unrenamed", "onto-constant") else probes, "features": sorted(w.features), "action_features": feats,
                               "nparams": len(a["params"]), "witness_of": None})
     return cases
+
+
+# ---------------------------------------------------------------------------------------------- shipped fixtures
+FIXTURE_PROBLEMS = {"models_tests/domain_miconic.pddl": "models_tests/miconic_pfile_1-0.pddl",
+                    "models_tests/miconic_learned_domain.pddl": "models_tests/miconic_pfile_1-0.pddl",
+                    "models_tests/nurikabe_domain.pddl": "models_tests/nurikabe_problem.pddl",
+                    "exporters_tests/domain_spider.pddl": "exporters_tests/pfile01_spider.pddl"}
+
+
+def shipped_domain_files(repo):
+    """the domain files the repository ships with its tests"""
+    found = set()
+    for f in glob.glob(os.path.join(str(repo), "tests/**/*.pddl"), recursive=True):
+        try:
+            head = open(f, "r", errors="replace").read(4000).lower().replace("\n", " ")
+        except OSError:
+            continue
+        if "(domain " in head and "(problem " not in head and "(:domain" not in head:
+            found.add(f)
+    return sorted(found)
+
+
+class FixtureWorld:
+    """just enough of pddlgen.World for make_mapping"""
+
+    def __init__(self, consts):
+        self.consts = [(c, None) for c in consts]
+
+
+def fixture_cases(rng, tier):
+    from ..common import REPO
+    files = shipped_domain_files(REPO)
+    max_bytes = {"quick": 9000, "thorough": 40000}[tier]
+    per_domain = {"quick": 2, "thorough": 8}[tier]
+    jobs, skipped = [], []
+    if tier == "quick":
+        # a sample of the files per run (every file is covered over a few seeds; the thorough tier takes all)
+        paired = [f for f in files if os.path.relpath(f, str(REPO / "tests")) in FIXTURE_PROBLEMS]
+        others = [f for f in files if f not in paired]
+        rng.shuffle(others)
+        files = sorted(paired + others[:10])
+    for f in files:
+        rel = os.path.relpath(f, str(REPO / "tests"))
+        if os.path.getsize(f) > max_bytes:
+            skipped.append({"file": rel, "why": "larger than %d bytes in this tier" % max_bytes})
+            continue
+        prob = FIXTURE_PROBLEMS.get(rel)
+        jobs.append({"op": "c18.fixture_info", "domain": f, "problem": str(REPO / "tests" / prob) if prob else None,
+                     "seed": rng.randint(1, 10 ** 6), "calls": 3, "steps": 2, "rel": rel})
+    cases = []
+    for job, info in zip(jobs, run_impl(jobs, nproc=min(8, max(1, len(jobs))))):
+        if "actions" not in info:
+            skipped.append({"file": job["rel"], "why": "the library rejects it: %s" % info.get("raised")})
+            continue
+        try:
+            info["domain_text"].encode("latin-1")
+        except UnicodeEncodeError:
+            skipped.append({"file": job["rel"], "why": "non-latin1 text"})
+            continue
+        names = sorted(info["actions"], key=lambda n: -(len(info["actions"][n]["params"]) + 2 * info["actions"][n]["n_when"]
+                                                        + 2 * info["actions"][n]["n_forall"]))
+        chosen = names[:per_domain]
+        w = FixtureWorld(info["consts"])
+        for name in chosen:
+            ai = info["actions"][name]
+            action = {"params": [tuple(x) for x in ai["params"]], "pre": [["forall", [b]] for b in ai["bound"]], "eff": []}
+            probes = []
+            for stt in info["states"]:
+                o = []
+                for n, t in info["objects"]:
+                    o += [n, "-", t]
+                st = stt["state"]
+                init = [["=", [fn] + a, repr(float.fromhex(v))] for fn, a, v in st["fluents"]] + [[p] + a for p, a in st["facts"]]
+                ptxt = G.render(["define", ["problem", "fx"], [":domain", info["domain_name"]], [":objects"] + o,
+                                 [":init"] + init, [":goal", ["and"]]])
+                for args in stt["calls"].get(name, []):
+                    probes.append({"args": args, "state": st, "problem_text": ptxt})
+            kinds = ["library-style"] + rng.sample(["rotation", "swap", "chain", "permutation", "overlap"], 1)
+            for kind in kinds:
+                m = make_mapping(rng, w, action, kind)
+                if m is None:
+                    continue
+                cases.append({"domain_text": info["domain_text"], "objects": [tuple(x) for x in info["objects"]], "action": name,
+                              "mapping": m, "kind": kind, "probes": probes, "features": ["fixture:" + job["rel"]],
+                              "action_features": (["when"] if ai["n_when"] else []) + (["forall"] if ai["n_forall"] or ai["bound"] else []),
+                              "nparams": len(ai["params"]), "witness_of": None})
+    return cases, skipped
 
 
 def cpairs(pairs):
@@ -270,11 +379,13 @@ def run(args):
     rep = Report(PROP, args.tier, args.seed)
     standard_proof_part(rep, PROP)
     rng = random.Random(args.seed * 7919 + 18)
+    fx_skipped = []
     if args.replay:
         data = json.load(open(args.replay))
         cases = [data["input"]["case"]]
     else:
-        cases = corpus_cases() + generate(rng, args.tier)
+        fx, fx_skipped = fixture_cases(rng, args.tier)
+        cases = corpus_cases() + fx + generate(rng, args.tier)
     cfg = run_impl([{"op": "core.numeric_config"}], nproc=1)[0]
     hashseeds = [0] if args.tier == "quick" else [0, 1, 2]
     all_units, all_verdicts = [], ""
@@ -283,10 +394,13 @@ def run(args):
              "app_true": 0, "app_false": 0, "app_raised": 0, "succ_returned": 0, "succ_refused_or_raised": 0,
              "change_signature_raised": 0, "domain_rejected": 0, "action_features": {}, "world_features": {},
              "mapping_mutated_by_call": 0, "moved_parameters": {}}
+    timing = {"impl_s": 0.0, "coq_s": 0.0}
     for hs in hashseeds:
         jobs = [{"op": "c18.rename", "domain_text": c["domain_text"], "action": c["action"], "mapping": c["mapping"],
                  "probes": [{"args": p["args"], "problem_text": p["problem_text"]} for p in c["probes"]]} for c in cases]
+        t_impl = time.time()
         results = run_impl(jobs, hashseed=hs)
+        timing["impl_s"] += time.time() - t_impl
         lits, units, kept = [], [], []
         for c, res in zip(cases, results):
             if "parse_raised" in res or "raised" in res:
@@ -297,8 +411,10 @@ def run(args):
             lits.append(lit)
             units.append(u)
             kept.append((c, res, nprobes))
-        verdicts, info = run_case_shards(PROP, "Corr.C18", lits, shard_size=8, units=units, header_extra=HEADER,
-                                         max_bytes=110_000)
+        t_coq = time.time()
+        verdicts, info = run_case_shards(PROP, "Corr.C18", lits, shard_size=30, units=units, header_extra=HEADER,
+                                         max_bytes=150_000)
+        timing["coq_s"] += time.time() - t_coq
         info_total["shards"] += info["shards"]
         info_total["shard_errors"] += info["shard_errors"]
         info_total["cmd"] = info["cmd"]
@@ -331,6 +447,7 @@ def run(args):
                 for f in c["action_features"]:
                     stats["action_features"][f] = stats["action_features"].get(f, 0) + 1
                 for f in c["features"]:
+                    f = "fixture" if f.startswith("fixture:") else f
                     stats["world_features"][f] = stats["world_features"].get(f, 0) + 1
                 if "value" not in res["renamed"]:
                     stats["change_signature_raised"] += 1
@@ -351,12 +468,17 @@ def run(args):
     cov = rep.coverage
     cov["input_distribution"] = stats
     cov["hash_seeds"] = hashseeds
+    stats["fixture_files"] = sorted({f[len("fixture:"):] for c in cases for f in c["features"] if f.startswith("fixture:")})
+    stats["fixture_files_skipped"] = fx_skipped
+    cov["timing"] = {k: round(v, 1) for k, v in timing.items()}
     cov["numeric_config"] = cfg
     cov["exhaustive"] = False
     cov["rule"] = ("generated typed domains (harness/pddlgen: <=4 types, constants, 2-4 predicates, <=3 functions, 1-2 actions of 0-3 parameters "
                    "with and/or/not/=/forall/comparison preconditions and add/del/assign/increase/decrease/when/forall-when effects) x one action x one "
                    "mapping: three of the admissible kinds " + ", ".join(ADMISSIBLE_KINDS) + " and one kind outside the property's quantifier ("
                    + ", ".join(FOREIGN_KINDS) + ": only the model has to agree there) x 2 states x <=3 type-correct calls. "
+                   "Plus the repository's own domain files (tests/**, a sample in the quick tier, all below 40 kB in the thorough tier): their "
+                   "largest actions x (fresh ?param_i names, one overlapping kind), with probes along a short walk from the shipped problem where one exists. "
                    "Each case yields a signature unit, a text unit and (applicability, successor) units per probe. A unit is non-trivial when the "
                    "mapping moves at least one parameter, is of an admissible kind, the action/world uses an optional feature and (for probes) the "
                    "state has facts; distinct by input hash. Admissibility is re-decided inside Coq on the spec's reading of the action.")
